@@ -53,8 +53,10 @@ class PostgresImpl(SqlImpl):
                 )
 
             def int_type_range(dtype: Int) -> tuple[int, int]:
-                is_signed = dtype.__class__.__name__[0] == "I"
-                bits = int(dtype.__class__.__name__[4 - is_signed :])
+                name = types.without_const(dtype).__class__.__name__
+                is_signed = name[0] == "I"
+                # the generic `Int` is stored as a 64 bit integer
+                bits = int(name[4 - is_signed :] or 64)
 
                 if is_signed:
                     return (-(2 ** (bits - 1)), 2 ** (bits - 1) - 1)
